@@ -27,6 +27,7 @@ theorem inv_atom_ty {v : Val} {t : Ty} (hw : v.wt = true) (h : v.typeOf = t) (ha
   | left _ _ => simp only [Val.typeOf] at h; subst h; simp [Ty.isAtomTy] at ha
   | right _ _ => simp only [Val.typeOf] at h; subst h; simp [Ty.isAtomTy] at ha
   | set _ _ => simp only [Val.typeOf] at h; subst h; simp [Ty.isAtomTy] at ha
+  | lam _ _ _ => simp [Val.wt] at hw
 
 theorem inv_bool {v : Val} (hw : v.wt = true) (h : v.typeOf = .bool) : ∃ b, v = .atom (.bool b) := by
   obtain ⟨a, rfl, ha⟩ := inv_atom_ty hw h rfl
@@ -52,6 +53,7 @@ theorem inv_or {v : Val} {a b : Ty} (hw : v.wt = true) (h : v.typeOf = .or a b) 
     obtain ⟨rfl, h2⟩ := h
     exact Or.inr ⟨x, rfl, hw, h2⟩
   | set _ _ => simp [Val.typeOf] at h
+  | lam _ _ _ => simp [Val.wt] at hw
 
 theorem inv_set {v : Val} {t : Ty} (hw : v.wt = true) (h : v.typeOf = .set t) :
     ∃ xs, v = .set t xs ∧ xs.Nodup ∧ ∀ a ∈ xs, a.ty = t := by
@@ -65,6 +67,7 @@ theorem inv_set {v : Val} {t : Ty} (hw : v.wt = true) (h : v.typeOf = .set t) :
   | map big _ _ _ _ _ => cases big <;> simp [Val.typeOf] at h
   | left _ _ => simp [Val.typeOf] at h
   | right _ _ => simp [Val.typeOf] at h
+  | lam _ _ _ => simp [Val.wt] at hw
   | set t' xs =>
     simp only [Val.typeOf, Ty.set.injEq] at h; subst h
     simp only [Val.wt, Bool.and_eq_true, nodupB_iff, List.all_eq_true, beq_iff_eq] at hw
@@ -91,6 +94,7 @@ theorem inv_pair {v : Val} {a b : Ty} (hw : v.wt = true) (h : v.typeOf = .pair a
   | left _ _ => simp [Val.typeOf] at h
   | right _ _ => simp [Val.typeOf] at h
   | set _ _ => simp [Val.typeOf] at h
+  | lam _ _ _ => simp [Val.wt] at hw
 
 theorem inv_option {v : Val} {t : Ty} (hw : v.wt = true) (h : v.typeOf = .option t) :
     v = .none t ∨ ∃ x, v = .some x ∧ x.wt = true ∧ x.typeOf = t := by
@@ -105,6 +109,7 @@ theorem inv_option {v : Val} {t : Ty} (hw : v.wt = true) (h : v.typeOf = .option
   | left _ _ => simp [Val.typeOf] at h
   | right _ _ => simp [Val.typeOf] at h
   | set _ _ => simp [Val.typeOf] at h
+  | lam _ _ _ => simp [Val.wt] at hw
 
 theorem inv_list {v : Val} {t : Ty} (hw : v.wt = true) (h : v.typeOf = .list t) :
     ∃ xs, v = .list t xs ∧ ∀ x ∈ xs, x.typeOf = t ∧ x.wt = true := by
@@ -122,6 +127,7 @@ theorem inv_list {v : Val} {t : Ty} (hw : v.wt = true) (h : v.typeOf = .list t) 
   | left _ _ => simp [Val.typeOf] at h
   | right _ _ => simp [Val.typeOf] at h
   | set _ _ => simp [Val.typeOf] at h
+  | lam _ _ _ => simp [Val.wt] at hw
 
 theorem inv_ticket {v : Val} {t : Ty} (hw : v.wt = true) (h : v.typeOf = .ticket t) :
     ∃ tk ct a, v = .ticket (.ticket t) tk ct a ∧ ct.ty = t := by
@@ -139,6 +145,7 @@ theorem inv_ticket {v : Val} {t : Ty} (hw : v.wt = true) (h : v.typeOf = .ticket
   | left _ _ => simp [Val.typeOf] at h
   | right _ _ => simp [Val.typeOf] at h
   | set _ _ => simp [Val.typeOf] at h
+  | lam _ _ _ => simp [Val.wt] at hw
 
 theorem inv_map {v : Val} {k t : Ty} (big : Bool) (hw : v.wt = true)
     (h : v.typeOf = (if big then .bigMap k t else .map k t)) :
@@ -153,6 +160,7 @@ theorem inv_map {v : Val} {k t : Ty} (big : Bool) (hw : v.wt = true)
   | left _ _ => cases big <;> simp [Val.typeOf] at h
   | right _ _ => cases big <;> simp [Val.typeOf] at h
   | set _ _ => cases big <;> simp [Val.typeOf] at h
+  | lam _ _ _ => simp [Val.wt] at hw
   | map big' k' t' keys vals rm =>
     have : big' = big ∧ k' = k ∧ t' = t := by
       cases big <;> cases big' <;> simp [Val.typeOf] at h <;> simp [h]
